@@ -149,6 +149,54 @@ def gen_histories(sd, consts, num, depth, sd_seed, module="MintGen.tla", name="g
     return hs, dt
 
 
+def cover_keys(h):
+    """Coverage keys of one generated history: for every operation the model's own expectation (the causes it finds, or none) and
+    the request / state classes the generator recorded with it (field x), plus the input variants presented."""
+    keys = set()
+    cfgkey = ""
+    for op in h:
+        if op.get("op") == "cfg":
+            lim = op.get("limits") or {}
+            cfgkey = "fee%s/mpp%s/lim%s" % ("0" if not op.get("fee") else "+", op.get("mpp"), [bool(lim.get(k)) for k in sorted(lim)] if isinstance(lim, dict) else "")
+            continue
+        x = op.get("x") or {}
+        variants = sorted({i.get("var", "") for i in op.get("ins", [])}) if "ins" in op else []
+        def coarse(v):
+            if isinstance(v, list):
+                return [coarse(y) for y in v]
+            if isinstance(v, int) and not isinstance(v, bool) and v > 2:
+                return 2
+            return v
+        base = [op.get("op"), sorted(x.get("c", [])), coarse(x.get("v")), variants]
+        keys.add(json.dumps(base, sort_keys=True))
+        # the same class under another configuration is a class of its own only for refusals (limits, mpp, fees decide them)
+        if x.get("c"):
+            keys.add(json.dumps(base + [cfgkey], sort_keys=True))
+    return keys
+
+
+def select_covering(hs, num):
+    """Greedy cover: from a large pool of generated behaviours keep those that add coverage keys (largest gain first), then fill
+    up with the rest in generation order.  Deterministic for a given pool."""
+    keyed = [(i, cover_keys(h)) for i, h in enumerate(hs)]
+    allkeys = set().union(*[k for _, k in keyed]) if keyed else set()
+    covered, chosen = set(), []
+    remaining = dict(keyed)
+    while remaining and len(chosen) < num:
+        best = max(remaining, key=lambda i: (len(remaining[i] - covered), -i))
+        if not remaining[best] - covered:
+            break
+        covered |= remaining.pop(best)
+        chosen.append(best)
+    for i, _ in keyed:
+        if len(chosen) >= num:
+            break
+        if i in remaining:
+            chosen.append(i)
+            covered |= remaining.pop(i)
+    return [hs[i] for i in chosen], {"pool": len(hs), "pool_keys": len(allkeys), "selected": len(chosen), "selected_keys": len(covered)}
+
+
 def to_harness_histories(hs, start_id=1, defaults=None):
     res = []
     for i, h in enumerate(hs):
@@ -158,7 +206,7 @@ def to_harness_histories(hs, start_id=1, defaults=None):
             if op.get("op") == "cfg":
                 cfg.update({k: v for k, v in op.items() if k != "op"})
             else:
-                ops.append(op)
+                ops.append({k: v for k, v in op.items() if k != "x"})
         lim = cfg.get("limits") or {}
         cfg["limits"] = {k: v for k, v in lim.items()} if isinstance(lim, dict) else {}
         rec = {"id": start_id + i, "fee": cfg.get("fee", 0), "mpp": bool(cfg.get("mpp", False)),
